@@ -483,7 +483,7 @@ func (cd *cmdDispatcher) dispatchHandler(ctx *cmdContext) (output respValue) {
 	if ctx.cs.respVersion == 2 {
 		output = resp3To2(result)
 	} else {
-		output.data = result.data
+		output = resp2NullTo3(result)
 	}
 
 	traceJson, _ := json.Marshal(output.toNative())
@@ -719,4 +719,31 @@ func (cd *cmdDispatcher) cmdList(aclcat, pattern string) (output respValue) {
 
 	output = nativeValueToResp(a)
 	return
+}
+
+// under RESP3 "no value" is the null type, also inside aggregates
+func resp2NullTo3(v respValue) respValue {
+	switch d := v.data.(type) {
+	case nil:
+		return respValue{data: respNull{}}
+	case respArray:
+		a := make(respArray, len(d))
+		for i, e := range d {
+			a[i] = resp2NullTo3(e)
+		}
+		return respValue{data: a}
+	case respMap:
+		m := newRespMapSized(len(d.m))
+		for _, k := range d.order {
+			m.set(k, resp2NullTo3(d.mustGet(k)))
+		}
+		return respValue{data: m}
+	case respPairs:
+		ps := make(respPairs, len(d))
+		for i, p := range d {
+			ps[i] = respPair{key: resp2NullTo3(p.key), value: resp2NullTo3(p.value)}
+		}
+		return respValue{data: ps}
+	}
+	return v
 }
